@@ -239,11 +239,11 @@ theorem render_load_needs_ExitsByCats :
   rw [← lossless_iff]
   refine ⟨⟨⟨?_, ?_, ?_, ?_, ?_, ?_, ?_, ?_, ⟨?_, ?_⟩, ?_⟩, ?_, ?_, ?_⟩, ?_⟩ <;> decide
 
-/-- **negative witness** for `UntypedFields` (F-C05-a). -/
-theorem render_load_needs_UntypedFields :
-    AllButUntyped docTypedField ∧ ¬ ∃ o, roundtrip docTypedField = .ok o ∧ o ≈ docTypedField := by
-  rw [← lossless_iff]
-  refine ⟨⟨⟨?_, ?_, ?_, ?_, ?_, ?_, ?_, ?_, ⟨?_, ?_⟩, ?_⟩, ?_, ?_, ?_⟩, ?_⟩ <;> decide
+/-- former finding F-C05-a (fixed in /repo): a typed contact-field reference now survives the
+round trip — the `UntypedFields` hypothesis is conservative. -/
+theorem typed_field_roundtrips :
+    ∃ o, roundtrip docTypedField = .ok o ∧ o ≈ docTypedField := by
+  rw [← lossless_iff]; decide
 
 /-- **negative witness** for `PlainGroups` (F-C05-b). -/
 theorem render_load_needs_PlainGroups :
